@@ -22,6 +22,7 @@ import SerfProofs.Lemmas.Coord
 import SerfProofs.Lemmas.ERatLaws
 import SerfProofs.Lemmas.Rounding
 import SerfModel.Gen.CoordFormula
+import SerfModel.Gen.CoordPurity
 namespace SerfProofs.C21
 open SerfModel SerfModel.Coord FloatLike
 open SerfModel.Gen.CoordFormula (code docs)
@@ -63,6 +64,29 @@ theorem C21_docs_seconds_eq_code : docs.seconds = code.seconds := by decide
 theorem C21_docs_is_documented (a b : Coordinate F) : docs.seconds.eval a b = documented a b := by
   rw [C21_docs_seconds_eq_code]
   rfl
+
+/-! ## 1b. DistanceTo is a function of its two arguments
+
+Every theorem of this file reads `DistanceTo` as a pure function of the two coordinates.  That is an assumption
+about the code, made explicit here and tied by extraction: on the distance path (DistanceTo, IsCompatibleWith,
+rawDistanceTo, diff, magnitude) no package-level variable of package coordinate is read or written, nothing is
+assigned through a parameter or the receiver, there is no `go`, closure or channel operation, and the callees are
+the known pure ones.  With that, concurrent estimates (Client.DistanceTo only takes a read lock) cannot influence
+each other; the harness op `conc` checks exactly this on the real code. -/
+
+theorem C21_gen_distance_path_pure :
+    SerfModel.Gen.CoordPurity.distancePath =
+      [ { name := "DistanceTo", packageVars := [], writesIntoArguments := [],
+          calls := ["c.IsCompatibleWith", "c.rawDistanceTo", "panic", "time.Duration"] },
+        { name := "IsCompatibleWith", packageVars := [], writesIntoArguments := [], calls := ["len"] },
+        { name := "rawDistanceTo", packageVars := [], writesIntoArguments := [], calls := ["diff", "magnitude"] },
+        { name := "diff", packageVars := [], writesIntoArguments := [], calls := ["len", "make"] },
+        { name := "magnitude", packageVars := [], writesIntoArguments := [], calls := ["math.Sqrt"] } ] := by decide
+
+/-- the part of it the theorems rely on: no shared state, no writes into the arguments -/
+theorem C21_gen_no_shared_state :
+    SerfModel.Gen.CoordPurity.distancePath.all (fun t => t.packageVars.isEmpty && t.writesIntoArguments.isEmpty) = true := by
+  decide
 
 /-! ## 2. different dimensions are rejected with the dimensionality error, never compared -/
 
